@@ -162,15 +162,132 @@ def check(prog: Program, tier: str) -> Result:
     _r18_8(prog, res)
     _r18_7(prog, res)
     _r18_9(prog, res)
+    _r18_11(prog, res)
     # R18.10: where a module comes from is a fact about the disk and sys.path NOW
     from . import c05 as _c05
     anchors = [f.key for f in prog.funcs.values() if f.mod.name == "tracing"]
     _c05.adopt_memo_rule(prog, res, "R18.10", anchors,
                          "import normalisation must hold for ANY layout of the imported packages: a memoised lookup answers for the layout of an earlier call "
                          "(another working directory, an edited or moved module), so star-imports are expanded to names the module no longer exports")
-    res.floors.update({"R18.1": 6, "R18.2": 2, "R18.4": 1, "R18.5": 1, "R18.10": 3})
+    res.floors.update({"R18.1": 6, "R18.2": 2, "R18.4": 1, "R18.5": 1, "R18.10": 3, "R18.11": 2})
     res.analysed["importfrom_constructions"] = n
     return res
+
+
+# ------------------------------------------------------------------------------------------------ R18.11
+def _r18_11(prog: Program, res: Result) -> None:
+    """When is a second import a DUPLICATE that may be deleted?  Only if it binds the same name to the same module in the
+    same statement list: `import slowimpl as impl` in an `except ImportError:` branch, or the same import inside another
+    function, binds the name where the first one does not.  For every helper of fix_duplicate_imports that collects
+    import statements in a dict of lists and deletes all but the first of a list: (a) the dict key contains the imported
+    module (`alias.name` for plain imports; `node.module` - with `node.level`, R18.1 - for from-imports); (b) the
+    statements of one list come from ONE block: they are drawn from an iteration over statement lists
+    (_group_statements_of_type, or the body / orelse / finalbody lists of the scopes), not from a walk of the whole tree -
+    or the key carries the block."""
+    from ..defuse import bindings
+    entry = prog.funcs.get(("fixes", "fix_duplicate_imports"))
+    if entry is None:
+        raise AnalysisError("anchor fixes.fix_duplicate_imports not found")
+    helpers = []
+    for c in prog.calls_in(entry):
+        r = prog.resolve_call(c.func, entry.mod, entry)
+        if r and r[0] == "fn" and r[1] not in helpers:
+            helpers.append(r[1])
+    n = 0
+    for fn in helpers:
+        # D[K].append(node): the collection of candidate duplicates
+        for c in walk_own(fn.node):
+            if not (isinstance(c, ast.Call) and isinstance(c.func, ast.Attribute) and c.func.attr == "append" and isinstance(c.func.value, ast.Subscript)
+                    and isinstance(c.func.value.value, ast.Name) and c.args and isinstance(c.args[0], ast.Name)):
+                continue
+            dname, key, nodevar = c.func.value.value.id, c.func.value.slice, c.args[0].id
+            if not any(isinstance(v, ast.Call) and norm(v.func).endswith("defaultdict") and v.args and norm(v.args[0]) == "list" for _s, v in bindings(fn).get(dname, []) if v is not None):
+                continue
+            # is it the dict whose lists lose all but their first element?  (some `X[1:]` of its values is deleted / replaced)
+            if not any(isinstance(x, ast.Subscript) and isinstance(x.slice, ast.Slice) and norm(x.slice.lower or ast.Constant(0)) == "1" for x in ast.walk(fn.node)):
+                continue
+            n += 1
+            key_names = {x.id for x in ast.walk(key) if isinstance(x, ast.Name)}
+            key_text = norm(key)
+            expanded = key_text
+            for nm in key_names:
+                for _s, v in bindings(fn).get(nm, []):
+                    if v is not None:
+                        expanded += " " + norm(v)
+            def always_names_module(e: ast.AST, depth: int = 0) -> bool:
+                """e mentions the imported module (X.module / alias.name) on EVERY way it can be evaluated"""
+                if depth > 4:
+                    return False
+                if isinstance(e, ast.Attribute) and e.attr in ("module", "name"):
+                    return True
+                if isinstance(e, ast.IfExp):
+                    return always_names_module(e.body, depth) and always_names_module(e.orelse, depth)
+                if isinstance(e, ast.BoolOp):
+                    return all(always_names_module(v, depth) for v in e.values)
+                if isinstance(e, ast.Name):
+                    defs = [v for _s, v in bindings(fn).get(e.id, []) if v is not None]
+                    return bool(defs) and all(always_names_module(v, depth + 1) for v in defs)
+                if isinstance(e, (ast.Tuple, ast.List)):
+                    return any(always_names_module(x, depth) for x in e.elts)
+                return False
+            has_module = always_names_module(key)
+            # where do the statements come from?
+            loops = []
+            a = parent(c)
+            while a is not None and a is not fn.node:
+                if isinstance(a, (ast.For, ast.AsyncFor)):
+                    loops.append(a)
+                a = parent(a)
+            node_loop = next((l for l in loops if any(isinstance(t, ast.Name) and t.id == nodevar for t in ast.walk(l.target))), None)
+            whole_tree = node_loop is not None and isinstance(node_loop.iter, ast.Call) and (prog.dotted(node_loop.iter.func) or "").split(".")[-1] == "walk"
+            outer_vars = {t.id for l in loops if l is not node_loop for t in ast.walk(l.target) if isinstance(t, ast.Name)} - {nodevar}
+            # loop variables of loops that enclose the node loop (the block / group being processed)
+            enclosing_node_loop = [l for l in loops if node_loop is not None and l is not node_loop and any(x is node_loop for x in ast.walk(l))]
+            block_vars = {t.id for l in enclosing_node_loop for t in ast.walk(l.target) if isinstance(t, ast.Name)}
+            def block_source(it: ast.AST, depth: int = 0) -> bool:
+                """does iterating `it` yield statement lists (or runs of statements of one list)?"""
+                if depth > 3:
+                    return False
+                if isinstance(it, ast.Call) and isinstance(it.func, ast.Name) and it.func.id in ("enumerate", "list", "tuple", "sorted", "reversed") and it.args:
+                    return block_source(it.args[0], depth)
+                if isinstance(it, ast.Call):
+                    r_ = prog.resolve_call(it.func, fn.mod, fn)
+                    if r_ and r_[0] == "fn":
+                        return any((prog.dotted(c2.func) or "").split(".")[-1] == "walk_sequence" for c2 in prog.calls_in(r_[1]))
+                    return False
+                if isinstance(it, ast.Name):
+                    defs = [v for _s, v in bindings(fn).get(it.id, []) if v is not None]
+                    return bool(defs) and all(block_source(v, depth + 1) for v in defs)
+                if isinstance(it, (ast.GeneratorExp, ast.ListComp)):
+                    elt = it.elt
+                    inner = {g.target.id: g.iter for g in it.generators if isinstance(g.target, ast.Name)}
+                    if isinstance(elt, ast.Name) and elt.id in inner:
+                        elt = inner[elt.id]
+                    txt = norm(elt) + " " + " ".join(norm(g.iter) for g in it.generators)
+                    return "getattr(" in txt and any(f in txt for f in ("'body'", '"body"', "field")) or any(f".{f}" in txt for f in ("body", "orelse", "finalbody"))
+                if isinstance(it, ast.Attribute):
+                    return it.attr in ("body", "orelse", "finalbody")
+                return False
+            outer_ok = bool(enclosing_node_loop) and block_source(enclosing_node_loop[0].iter)
+            per_block = (node_loop is not None and not whole_tree and outer_ok) or bool(key_names & block_vars) and outer_ok
+            # a dict created INSIDE the loop over blocks is per block as well
+            created_inside = any(any(isinstance(t, ast.Name) and t.id == dname for t in (st.targets if isinstance(st, ast.Assign) else [])) for l in enclosing_node_loop for st in ast.walk(l))
+            per_block = per_block and (created_inside or bool(key_names & block_vars))
+            problems = []
+            if not has_module:
+                problems.append(f"the key `{key_text}` does not contain the imported module: two modules imported under one name count as duplicates (`import fast as impl` / `import slow as impl`)")
+            if not per_block:
+                problems.append(f"the candidates are drawn from {'a walk of the whole tree' if whole_tree else 'more than one statement list'} and the key does not carry the block: "
+                                "an import in an except / else branch or in another function is deleted as a duplicate of the first one")
+            res.decide(not problems, "R18.11", fn.loc(c), fn.fq, short(c, 70),
+                       "duplicates = same module, same bound name, same statement list" if not problems else "; ".join(problems))
+    if n == 0:
+        raise AnalysisError("no duplicate-import collection found in the helpers of fix_duplicate_imports")
+
+
+def re_search_name(text: str) -> bool:
+    import re as _re
+    return bool(_re.search(r"\balias\.name\b|\.name\b", text))
 
 
 # ------------------------------------------------------------------------------------------------ R18.5
@@ -382,6 +499,10 @@ def _r18_6(prog: Program, res: Result) -> None:
 from ..selftest import Variant  # noqa: E402
 
 VARIANTS = [
+    Variant("duplicate-imports-grouped-by-bound-name-only", "FIRE", "fixes", "                import_nodes[(i, alias.name, asname)].append(node)", "                import_nodes[(i, asname)].append(node)", "R18.11"),
+    Variant("duplicate-imports-across-blocks", "FIRE", "fixes", "                import_nodes[(i, alias.name, asname)].append(node)", "                import_nodes[(alias.name, asname)].append(node)", "R18.11"),
+    Variant("duplicate-from-imports-over-the-whole-tree", "FIRE", "fixes", "    for group in _group_statements_of_type(root, ast.ImportFrom):\n        module_import_aliases = collections.defaultdict(set)",
+            "    for group in [list(core.walk(root, ast.ImportFrom))]:\n        module_import_aliases = collections.defaultdict(set)", "R18.11"),
     Variant("dotted-import-unused-when-not-spelled-out", "FIRE", "fixes",
             "    return {name for name in imports - names if name.split(\".\")[0] not in names}\n", "    return imports - names\n", "R18.9"),
     Variant("reimported-names-ignore-level", "FIRE", "tracing",
